@@ -70,7 +70,7 @@ def _check_schema(file_to_be_checked: IO[str], state_manager: ComplianceToolStat
             state_manager.add_step('Read file and check if it is conform to the json syntax')
             json_to_be_checked = json.load(file_to_be_checked)
             state_manager.set_step_status(Status.SUCCESS)
-    except (json.decoder.JSONDecodeError, UnicodeDecodeError, RecursionError) as error:
+    except (json.decoder.JSONDecodeError, UnicodeDecodeError, RecursionError, ValueError) as error:
         state_manager.set_step_status(Status.FAILED)
         logger.error(error)
         state_manager.add_step('Validate file against official json schema')
@@ -151,7 +151,7 @@ def check_deserialization(file_path: str, state_manager: ComplianceToolStateMana
             state_manager.add_step('Read file and check if it is deserializable')
         try:
             obj_store = json_deserialization.read_aas_json_file(file_to_be_checked, failsafe=True)
-        except (json.decoder.JSONDecodeError, UnicodeDecodeError, RecursionError) as error:
+        except (json.decoder.JSONDecodeError, UnicodeDecodeError, RecursionError, ValueError) as error:
             # not a JSON document at all: even the failsafe reader cannot skip over that
             state_manager.set_step_status(Status.FAILED)
             logger.error(error)
